@@ -554,6 +554,11 @@ func newSSAStyleFromString(content string, format map[int]string) (s *ssaStyle, 
 			return
 		}
 
+		// An empty item means the style doesn't set this attribute
+		if len(item) == 0 {
+			continue
+		}
+
 		// Switch on attribute name
 		switch attr {
 		// Bool
@@ -1209,14 +1214,18 @@ func (s Subtitles) WriteToSSA(o io.Writer) (err error) {
 		var styleNames []string
 		for _, s := range s.Styles {
 			var ss = newSSAStyleFromStyle(*s)
-			format = ss.updateFormat(formatMap, format)
 			styles[ss.name] = ss
 			styleNames = append(styleNames, ss.name)
+		}
+
+		// Loop through styles in a deterministic order so that the format is deterministic as well
+		sort.Strings(styleNames)
+		for _, n := range styleNames {
+			format = styles[n].updateFormat(formatMap, format)
 		}
 		b = append(b, []byte("Format: "+strings.Join(format, ", ")+"\n")...)
 
 		// Styles
-		sort.Strings(styleNames)
 		for _, n := range styleNames {
 			b = append(b, []byte("Style: "+styles[n].string(format)+"\n")...)
 		}
